@@ -20,6 +20,7 @@
  *                  families (split, deschi, desclo) for every position
  *       kind=inst|event|both   alpha=all|<name>[+<name>...]
  *       exh2/exh3/exh5  longest length enumerated completely over 2/3/5 keys
+ *       count=0    do not count non-trivial arrays (second pass, asan)
  *       dense=1    more special lengths (<= 600, 8 either side of 1024/2048/4096)
  *
  * case 0 of every mode checks echs_instant_lt_p / echs_event_lt_p against the
@@ -144,6 +145,8 @@ init_wrk(void)
 }
 
 static long n_arrays, n_nontriv;
+/* count=0: a second pass over arrays another driver counts already (asan) */
+static int count_nt = 1;
 
 static void
 mk_elem(int kind, void *tgt, echs_instant_t v, int rank, size_t idx)
@@ -664,7 +667,7 @@ enum_exh(void)
 					snprintf(what, sizeof(what), "array #%zu of %zu", c, total);
 					nt += run(kind, a, n, "exh", what);
 				}
-				vd_sh->nontriv += nt;
+				vd_sh->nontriv += count_nt ? nt : 0;
 				vd_count("arrays_exhaustive_short", (long)total);
 				if (n >= 5) {
 					vd_sample("%s: all %zu arrays of length %d over %s {%s, %s%s}", kname[kind], total, n,
@@ -746,7 +749,7 @@ enum_fam(void)
 					nt = run(kind, a, n, fam_group(f), what);
 					dup = fam_dup_p(f, n, a->k, fulldup);
 					if (nt && cnt && !dup) {
-						vd_sh->nontriv++;
+						vd_sh->nontriv += count_nt;
 					}
 					if (fulldup && n > 512 && nt && dup) {
 						vd_count("unexpected_duplicate_family_arrays", 1);
@@ -823,7 +826,7 @@ enum_pos(void)
 								nt++;
 							}
 						}
-						vd_sh->nontriv += nt;
+						vd_sh->nontriv += count_nt ? nt : 0;
 						vd_count("arrays_position", (long)(e - b));
 						if (n == 1025 || n == 100) {
 							vd_sample("%s: length %zu over %s: %s at i=%zu..%zu", kname[kind], n, a->name, pname[pf], b, e - 1);
@@ -841,6 +844,7 @@ enumerate(void)
 	const char *mode = vd_opt("mode", "exh");
 
 	dense = vd_opt_l("dense", 0);
+	count_nt = vd_opt_l("count", 1) != 0;
 	init_alph();
 #if !defined __SANITIZE_ADDRESS__
 	init_wrk();
